@@ -57,6 +57,7 @@ class Canon:
         self.max_depth = max_depth
         self.defs = {}     # lid -> ("let", init, pos, mutable) | ("param", idx)
         self.assigned = set()
+        self._names = {}
         params = list(body.get("params") or ())
         # positional parameter names do not count a leading `self`
         if params and params[0].get("k") == "Bind" and params[0].get("name") == "self":
@@ -110,6 +111,49 @@ class Canon:
             for i, sp in enumerate(p["before"]):
                 self._bind_pat(sp, src, pos + "[%d]" % i)
 
+    PURE = {"len", "is_empty", "min", "max", "from", "into", "as_slice", "saturating_sub", "saturating_add",
+            "wrapping_sub", "wrapping_add", "leading_zeros", "trailing_zeros", "ilog2", "next_power_of_two",
+            "is_power_of_two", "pow", "abs", "as_ref", "as_mut", "unwrap_or", "next_multiple_of", "first", "last",
+            "get", "iter", "clone", "copied", "count_ones", "add", "sub", "offset", "as_ptr", "as_mut_ptr", "cast"}
+
+    def _simple(self, e):
+        cnt = 0
+        for x, _ in H.walk(e):
+            cnt += 1
+            k = x.get("k")
+            if cnt > 14 or k in ("Try", "Closure", "Match", "If", "Loop", "While", "For", "Block", "Assign", "AssignOp"):
+                return False
+            if k == "MethodCall" and x["name"] not in self.PURE and x["args"]:
+                return False
+            if k == "Call":
+                c = H.callee(x) or ""
+                if c.split("::")[-1] not in self.PURE and not (x["f"].get("dk", "").startswith("Ctor")):
+                    return False
+        return True
+
+    def _head(self, e):
+        e = peel(e)
+        k = e.get("k")
+        if k in ("Try", "Cast", "AddrOf", "Unary"):
+            return self._head(e["e"])
+        if k == "MethodCall":
+            c = H.strip_generics(H.callee(e) or e["name"])
+            return "::".join(c.split("::")[-2:])
+        if k == "Call":
+            c = H.strip_generics(H.callee(e) or "")
+            return "::".join(c.split("::")[-2:]) if c else "call"
+        if k == "Index":
+            return self._head(e["e"]) + "[]"
+        if k == "Field":
+            return self._head(e["e"]) + "." + e["name"]
+        if k == "Local":
+            return self.local(e, self.max_depth)
+        if k == "Lit":
+            return H.show(e)
+        if k == "Item":
+            return H.short(e["path"])
+        return str(k)
+
     def local(self, n, depth):
         d = self.defs.get(n["lid"])
         if n["name"] == "self":
@@ -118,9 +162,16 @@ class Canon:
             return n["name"]
         if d[0] == "param":
             return "$%d%s" % (d[1], d[2])
-        if self.inline and not d[3] and n["lid"] not in self.assigned and depth < self.max_depth:
+        stable = not d[3] and n["lid"] not in self.assigned
+        if self.inline and stable and depth < self.max_depth and self._simple(d[1]):
             return self.c(d[1], depth + 1) + d[2]
-        return n["name"]
+        key = n["lid"]
+        if key not in self._names:
+            self._names[key] = None  # recursion guard
+            base = ("@" if stable else "@mut:") + self._head(d[1]) + d[2]
+            used = [v for v in self._names.values() if v and (v == base or v.startswith(base + "#"))]
+            self._names[key] = base if not used else "%s#%d" % (base, len(used))
+        return self._names[key] or n["name"]
 
     def __call__(self, n):
         return self.c(n, 0)
@@ -177,6 +228,8 @@ class Canon:
                 return "(0 == %s.len())" % self.c(n["recv"], d)
             return "%s(%s)" % (name, ", ".join([self.c(n["recv"], d)] + [self.c(a, d) for a in n["args"]]))
         if k == "Call":
+            if H.strip_generics(H.callee(n) or "") == "core::ops::range::RangeInclusive::new":
+                return "%s..=%s" % (self.c(n["args"][0], d), self.c(n["args"][1], d))
             return "%s(%s)" % (self.c(n["f"], d), ", ".join(self.c(a, d) for a in n["args"]))
         if k == "Try":
             return self.c(n["e"], d) + "?"
@@ -184,6 +237,12 @@ class Canon:
             return "(" + ", ".join(self.c(a, d) for a in n["elems"]) + ")"
         if k == "Array":
             return "[" + ", ".join(self.c(a, d) for a in n["elems"]) + "]"
+        if k == "StructLit" and H.strip_generics(n["path"].get("path", "")).startswith("core::ops::range::Range"):
+            fs = {f["name"]: self.c(f["e"], d) for f in n["fields"]}
+            incl = "Inclusive" in n["path"]["path"]
+            return "%s..%s%s" % (fs.get("start", ""), "=" if incl else "", fs.get("end", ""))
+        if k == "Call" and H.strip_generics(H.callee(n) or "") == "core::ops::range::RangeInclusive::new":
+            return "%s..=%s" % (self.c(n["args"][0], d), self.c(n["args"][1], d))
         if k == "StructLit":
             return H.strip_generics(n["path"].get("path", "?")) + "{" + ", ".join(
                 f["name"] + ": " + self.c(f["e"], d) for f in sorted(n["fields"], key=lambda f: f["name"])) + "}"
@@ -255,3 +314,240 @@ def top_statements(body_node):
         raise Anchor("fn body is not a block")
     rec(n)
     return out
+
+
+# ---- structural path conditions ------------------------------------------------
+class Index:
+    """Parent links + path-condition extraction for one HIR body."""
+
+    def __init__(self, body):
+        self.body = body
+        self.root = body["body"]
+        self.parent = {}
+        self.canon = Canon(body)
+        for n, p in H.walk(self.root):
+            self.parent[id(n)] = p
+
+    def ancestors(self, n):
+        cur = self.parent.get(id(n))
+        while cur is not None:
+            yield cur
+            cur = self.parent.get(id(cur))
+
+    def contains(self, outer, inner):
+        if outer is inner:
+            return True
+        return any(a is outer for a in self.ancestors(inner))
+
+    def error_of(self, branch):
+        """Error variant(s) constructed in a diverging branch: paths of Err(Variant..) / ok_or(Variant)."""
+        out = []
+        for x, _ in H.walk(branch):
+            if x.get("k") in ("Call", "StructLit", "Item"):
+                p = None
+                if x["k"] == "Call" and x["f"].get("k") == "Item" and x["f"].get("dk", "").startswith("Ctor"):
+                    p = x["f"]["path"]
+                elif x["k"] == "StructLit":
+                    p = x["path"].get("path")
+                elif x["k"] == "Item" and x.get("dk", "").startswith("Ctor"):
+                    p = x["path"]
+                if p and "Error" in p and not p.startswith("core::"):
+                    ps = H.strip_generics(p)
+                    if ps not in out:
+                        out.append(ps)
+        return out
+
+    def diverges(self, n):
+        return n is not None and n.get("ty") == "!"
+
+    def stmt_guards(self, stmt):
+        """Conditions established for everything *after* this statement (it diverges otherwise).
+        Returns list of dicts {cond, kind, node, errs}."""
+        out = []
+        k = stmt.get("k")
+        e = stmt.get("e") if k == "ExprStmt" else None
+        if k == "LetStmt":
+            if stmt.get("els") is not None and stmt.get("init") is not None:
+                out.append({"cond": "let %s = %s" % (H.show_pat(stmt["pat"]), self.canon(stmt["init"])),
+                            "kind": "let-else", "node": stmt, "errs": self.error_of(stmt["els"])})
+            e = stmt.get("init")
+        if e is None:
+            return out
+        e0 = peel(e)
+        if e0.get("k") == "If":
+            c, t, el = e0["cond"], e0["then"], e0.get("else")
+            if self.diverges(t) and (el is None or not self.diverges(el)):
+                for cc in self.split_or(c):
+                    out.append({"cond": self.neg(cc), "kind": "guard", "node": e0, "errs": self.error_of(t),
+                                "raw": self.canon(cc), "expr": cc, "pos": False})
+            elif el is not None and self.diverges(el) and not self.diverges(t):
+                for cc in self.split_and(c):
+                    out.append({"cond": self.cond(cc), "kind": "guard-else", "node": e0, "errs": self.error_of(el),
+                                "raw": self.neg(cc), "expr": cc, "pos": True})
+        # `expr?` statements (and lets initialised by them): the call succeeded
+        for x, _ in H.walk(e):
+            if x.get("k") == "Closure":
+                continue
+            if x.get("k") == "Try":
+                out.append({"cond": "ok " + self.canon(x["e"]), "kind": "try", "node": x, "errs": []})
+        # assert!(cond) style
+        if e0.get("mac", "").split(">")[0] in ("assert", "assert_eq", "assert_ne", "debug_assert", "debug_assert_eq"):
+            pass
+        return out
+
+    def split_or(self, c):
+        c = peel(c)
+        if c.get("k") == "Binary" and c["op"] == "||":
+            return self.split_or(c["l"]) + self.split_or(c["r"])
+        return [c]
+
+    def split_and(self, c):
+        c = peel(c)
+        if c.get("k") == "Binary" and c["op"] == "&&":
+            return self.split_and(c["l"]) + self.split_and(c["r"])
+        return [c]
+
+    def cond(self, c):
+        c = peel(c)
+        if c.get("k") == "Let":
+            return "let %s = %s" % (H.show_pat(c["pat"]), self.canon(c["init"]))
+        return self.canon(c)
+
+    def neg(self, c):
+        c = peel(c)
+        if c.get("k") == "Let":
+            return "!let %s = %s" % (H.show_pat(c["pat"]), self.canon(c["init"]))
+        fake = {"k": "Unary", "op": "!", "e": c, "ty": "bool"}
+        s = self.canon(fake)
+        if s.startswith("!!"):
+            s = s[2:]
+        return s
+
+    def path_conditions(self, site):
+        """Conditions that hold whenever `site` is evaluated (structural, sound for structured code):
+        enclosing if/else/match/while conditions and earlier diverging guards / `?` in enclosing blocks."""
+        out = []
+        child = site
+        for anc in self.ancestors(site):
+            k = anc.get("k")
+            if k == "Block":
+                # statements before the one containing `child`
+                idx = None
+                for i, s in enumerate(anc["stmts"]):
+                    if s is child or self._stmt_contains(s, child):
+                        idx = i
+                        break
+                upto = len(anc["stmts"]) if idx is None else idx
+                for s in anc["stmts"][:upto]:
+                    out.extend(self.stmt_guards(s))
+            elif k == "If":
+                if child is anc["then"] or self.contains(anc["then"], child):
+                    for cc in self.split_and(anc["cond"]):
+                        out.append({"cond": self.cond(cc), "kind": "if", "node": anc, "errs": [], "expr": cc, "pos": True})
+                elif anc.get("else") is not None and (child is anc["else"] or self.contains(anc["else"], child)):
+                    for cc in self.split_or(anc["cond"]):
+                        out.append({"cond": self.neg(cc), "kind": "else", "node": anc, "errs": [], "expr": cc, "pos": False})
+            elif k == "Match":
+                for a in anc["arms"]:
+                    if a["body"] is child or self.contains(a["body"], child):
+                        out.append({"cond": "match %s => %s" % (self.canon(anc["scrut"]), H.show_pat(a["pat"])),
+                                    "kind": "arm", "node": anc, "errs": []})
+                        if a.get("guard"):
+                            out.append({"cond": self.cond(a["guard"]), "kind": "arm-guard", "node": anc, "errs": []})
+            elif k == "While":
+                if child is anc["body"] or self.contains(anc["body"], child):
+                    for cc in self.split_and(anc["cond"]):
+                        out.append({"cond": self.cond(cc), "kind": "while", "node": anc, "errs": [], "expr": cc, "pos": True})
+            elif k == "Binary" and anc["op"] == "&&":
+                if child is anc["r"] or self.contains(anc["r"], child):
+                    for cc in self.split_and(anc["l"]):
+                        out.append({"cond": self.cond(cc), "kind": "and-lhs", "node": anc, "errs": [], "expr": cc, "pos": True})
+            elif k == "Binary" and anc["op"] == "||":
+                if child is anc["r"] or self.contains(anc["r"], child):
+                    for cc in self.split_or(anc["l"]):
+                        out.append({"cond": self.neg(cc), "kind": "or-lhs", "node": anc, "errs": [], "expr": cc, "pos": False})
+            child = anc
+        return out
+
+    def _stmt_contains(self, stmt, node):
+        for key in ("e", "init", "els"):
+            c = stmt.get(key)
+            if c is not None and (c is node or self.contains(c, node)):
+                return True
+        return False
+
+    def all_guards(self):
+        """Every diverging guard in the body: (cond that triggers the exit, error variants, node)."""
+        out = []
+        for n, _ in H.walk(self.root):
+            if n.get("k") == "Block":
+                for s in n["stmts"]:
+                    for g in self.stmt_guards(s):
+                        if g["kind"] in ("guard", "guard-else", "let-else"):
+                            out.append(g)
+                if n.get("expr") is not None:
+                    for g in self.stmt_guards({"k": "ExprStmt", "e": n["expr"]}):
+                        if g["kind"] in ("guard", "guard-else", "let-else"):
+                            out.append(g)
+        return out
+
+
+    def dominating_calls(self, site):
+        """Call/MethodCall nodes that are unconditionally evaluated before `site` on every path
+        (they sit in earlier statements of enclosing blocks, outside nested control flow and closures)."""
+        out = []
+        child = site
+        for anc in self.ancestors(site):
+            if anc.get("k") == "Block":
+                idx = None
+                for i, s in enumerate(anc["stmts"]):
+                    if s is child or self._stmt_contains(s, child):
+                        idx = i
+                        break
+                upto = len(anc["stmts"]) if idx is None else idx
+                for s in anc["stmts"][:upto]:
+                    out.extend(self.unconditional_calls(s))
+            elif anc.get("k") == "Closure":
+                break
+            child = anc
+        return out
+
+    def unconditional_calls(self, n):
+        out = []
+        stack = [n]
+        while stack:
+            x = stack.pop()
+            k = x.get("k")
+            if k in ("Call", "MethodCall"):
+                out.append(x)
+            if k in ("Closure",):
+                continue
+            if k == "If":
+                stack.append(x["cond"])
+                continue
+            if k in ("Match",):
+                stack.append(x["scrut"])
+                continue
+            if k in ("While", "For", "Loop"):
+                if k == "For":
+                    stack.append(x["iter"])
+                continue
+            if k == "Binary" and x["op"] in ("&&", "||"):
+                stack.append(x["l"])
+                continue
+            for _, c in H.children(x):
+                stack.append(c)
+        return out
+
+
+def range_parts(idx):
+    """(start node|None, end node|None, inclusive) of a range expression used as an index, else None."""
+    idx = peel(idx)
+    if idx.get("k") == "StructLit" and "core::ops::range::Range" in idx["path"].get("path", ""):
+        fs = {f["name"]: f["e"] for f in idx["fields"]}
+        return fs.get("start"), fs.get("end"), "Inclusive" in idx["path"]["path"]
+    if idx.get("k") == "Call" and H.strip_generics(H.callee(idx) or "") == "core::ops::range::RangeInclusive::new":
+        return idx["args"][0], idx["args"][1], True
+    if idx.get("k") == "Item" and idx.get("path", "").endswith("RangeFull"):
+        return None, None, False
+    return None
